@@ -324,9 +324,27 @@ fn buckets(args: &[String]) {
     }
 }
 
+/// `lossy <file>`: one hex byte string per line ("-" = empty) -> hex of String::from_utf8_lossy(bytes)
+fn lossy(args: &[String]) {
+    use std::io::BufRead;
+    let f = std::fs::File::open(&args[0]).expect("file");
+    for line in std::io::BufReader::new(f).lines() {
+        let line = line.unwrap();
+        let t = line.trim();
+        if t.is_empty() {
+            continue;
+        }
+        let b: Vec<u8> = if t == "-" { vec![] } else { (0..t.len() / 2).map(|i| u8::from_str_radix(&t[2 * i..2 * i + 2], 16).unwrap()).collect() };
+        let s = String::from_utf8_lossy(&b).to_string();
+        let o: String = s.as_bytes().iter().map(|x| format!("{:02x}", x)).collect();
+        println!("{} {}", t, if o.is_empty() { "-".to_string() } else { o });
+    }
+}
+
 pub fn main(cmd: &str, args: &[String]) {
     match cmd {
         "conv" => conv(args),
+        "lossy" => lossy(args),
         "buckets" => buckets(args),
         "offset-reps" => {
             for r in offset_reps() {
